@@ -3,8 +3,9 @@ import PoseVerif.Model.PoseOps
 # OpenPose import (`pose_format/utils/openpose.py`)
 
 `loadOpenpose`: frames are `(frame id, people)`; a person is one list of numbers per header component (`x, y, c` interleaved). The loops of the code
-(running keypoint index across the components, stride 3) are written here in closed form: a person's keypoints are the triples of the concatenation
-of its component lists; the correspondence check (distinct value in every cell) ties that to the loops.
+(every component written from its own offset — the sum of the header sizes of the components before it —, stride 3) are written here in closed form:
+header point `k` lies in component `c` at position `j` (`locate`), and holds the `j`-th triple of the person's list for `c`, or zeros when that list is
+shorter (a part OpenPose was not asked to detect is an empty list); the correspondence check (distinct value in every cell) ties that to the loops.
 `frameId`: a matcher for the regular expression `(?:^|\D)(\d+)_keypoints.json` with `re.findall` semantics (leftmost, non-overlapping, greedy), last match.
 -/
 namespace PoseVerif
@@ -20,30 +21,41 @@ def triplesOf : List S → List (S × S × S)
   | x :: y :: c :: rest => (x, y, c) :: triplesOf rest
   | _ => []
 
-/-- the keypoints of a person, in header order -/
+/-- the keypoints of a person, in header order (all components concatenated) -/
 def personKeypoints (person : List (List S)) : List (S × S × S) := person.flatMap triplesOf
 
 def maxL : List Nat → Option Nat
   | [] => none
   | x :: xs => some (xs.foldl max x)
 
-/-- what the loops leave in cell `(frame f, person p, keypoint k)`: the person's `k`-th keypoint if frame `f` is present and has a person `p` with that many keypoints, zeros otherwise -/
-def opCell (sc : Scalar S) (frames : List (OPFrame S)) (f p k : Nat) : S × S × S :=
+/-- header point `k` ↦ (component index, position inside the component), for components of the given sizes -/
+def locate : List Nat → Nat → Option (Nat × Nat)
+  | [], _ => none
+  | n :: ns, k => if k < n then some (0, k) else (locate ns (k - n)).map fun cj => (cj.1 + 1, cj.2)
+
+/-- what the loops leave in cell `(frame f, person p, header point k)`: the `j`-th keypoint of the person's list for the component `c` that point `k` belongs to,
+    if frame `f` is present, has a person `p`, and that list is long enough; zeros otherwise -/
+def opCell (sc : Scalar S) (sizes : List Nat) (frames : List (OPFrame S)) (f p k : Nat) : S × S × S :=
   match frames.find? (·.id == f) with
   | some fr => match fr.people[p]? with
-    | some person => (personKeypoints person).getD k (sc.zero, sc.zero, sc.zero)
+    | some person => match locate sizes k with
+      | some (c, j) => (triplesOf (person.getD c [])).getD j (sc.zero, sc.zero, sc.zero)
+      | none => (sc.zero, sc.zero, sc.zero)
     | none => (sc.zero, sc.zero, sc.zero)
   | none => (sc.zero, sc.zero, sc.zero)
 
-/-- `load_openpose`. `none`: `max()` of no frames, a frame id beyond the frame count, more keypoints than the header has points, a component list whose length is not a multiple of 3. -/
-def loadOpenpose (sc : Scalar S) (isZero : S → Bool) (totalPoints : Nat) (frames : List (OPFrame S)) (fps : S) (numFrames : Option Nat) : Option (PBody S) := do
+/-- `load_openpose`; `sizes`: points per header component. `none`: `max()` of no frames, a frame id beyond the frame count, a person without a list for every
+    component (`KeyError`), a component list with more keypoints than the header component has points or whose length is not a multiple of 3. -/
+def loadOpenpose (sc : Scalar S) (isZero : S → Bool) (sizes : List Nat) (frames : List (OPFrame S)) (fps : S) (numFrames : Option Nat) : Option (PBody S) := do
+  let totalPoints := sizes.sum
   let maxId ← maxL (frames.map (·.id))
   let people ← maxL (frames.map (·.people.length))
   let n := numFrames.getD (maxId + 1)
   if frames.any (fun fr => fr.id ≥ n) then none
-  else if frames.any (fun fr => fr.people.any fun person => (personKeypoints person).length > totalPoints ∨ person.any fun nums => nums.length % 3 ≠ 0) then none
+  else if frames.any (fun fr => fr.people.any fun person =>
+      person.length ≠ sizes.length ∨ (List.zipWith (fun nums sz => decide ((triplesOf nums).length > sz ∨ nums.length % 3 ≠ 0)) person sizes).any id) then none
   else
-    let cell := opCell sc frames
+    let cell := opCell sc sizes frames
     let data : A4 S := (List.range n).map fun f => (List.range people).map fun p => (List.range totalPoints).map fun k => [(cell f p k).1, (cell f p k).2.1]
     let conf : A3 S := (List.range n).map fun f => (List.range people).map fun p => (List.range totalPoints).map fun k => (cell f p k).2.2
     some (mkBody .numpy isZero fps data conf (some (deriveMissing isZero data conf)))
